@@ -71,7 +71,7 @@ def gen(rng, tier, index):
         tuple(pargen.BACKENDS_POOL) + ('False',)
     big = rng.random() < 0.1
     desc, a = pargen.gen_desc(
-        rng, max_n=24 if big else 8, falsy_p=0.12, batched_p=0.6,
+        rng, max_n=24 if big else 8, falsy_p=0.12, batched_p=0.6, tile_p=0.1,
         par_kw=dict(backends=backends, max_extra_b=3))
     st = parprops.par_stage(desc)
     if st.get('backend') is False and st['op'] == 'prefetch':
